@@ -13,7 +13,10 @@ package core
 // array elements; condition none or {pattern:{b:?y}} over 0..2 facts; one action may
 // fail; serialActions on/off; both states.
 
-import "strconv"
+import (
+	"strconv"
+	"sync"
+)
 
 func vhC04Rule(whenArr bool, cond bool, serial bool, codes ...string) Map {
 	var when map[string]interface{}
@@ -179,6 +182,49 @@ func VH_C04_once(kind, nrules, nact, cfg int) {
 				vassert(sib.Disposition == Complete, "sibling-action-unaffected")
 			}
 		}
+	}
+	vreach("end")
+}
+
+// vhInterpSync: a recording interpreter that may be called from several goroutines.
+type vhInterpSync struct {
+	mu    sync.Mutex
+	execs []string
+}
+
+func (i *vhInterpSync) GetName() string { return "vh" }
+func (i *vhInterpSync) GetThunk(ctx *Context, loc *Location, bs Bindings, a Action) (func() (interface{}, error), error) {
+	return func() (interface{}, error) {
+		code, _ := a.Code.(string)
+		i.mu.Lock()
+		i.execs = append(i.execs, code)
+		i.mu.Unlock()
+		return code, nil
+	}, nil
+}
+
+// VH_C04_conc (concurrency mode): a rule's actions run concurrently unless it asks for
+// serial actions; they must not share mutable state (the bindings handed to each
+// execution), and each still runs exactly once.
+func VH_C04_conc(kind, nact int) {
+	env := vhNewEnv(kind)
+	in := &vhInterpSync{}
+	c := DefaultControl()
+	c.ActionInterpreters = map[string]ActionInterpreter{"vh": in}
+	env.loc.SetControl(c)
+	codes := []string{"a1", "a2", "a3"}[:nact]
+	_, err := env.loc.AddRule(env.ctx, "r1", vhRule(map[string]interface{}{"a": "?x"}, codes...))
+	vassume(err == nil)
+	_, cond := env.loc.ProcessEvent(env.ctx, Map{"a": "1"})
+	vassert(cond == nil, "event-complete")
+	for _, code := range codes {
+		n := 0
+		for _, e := range in.execs {
+			if e == code {
+				n++
+			}
+		}
+		vassert(n == 1, "each-action-exactly-once")
 	}
 	vreach("end")
 }
